@@ -464,7 +464,7 @@ impl C14 {
 
 impl Monitor for C14 {
     fn total_cases(&self) -> u64 {
-        self.tier.pick(40_000, 1_000_000)
+        self.tier.pick(120_000, 2_000_000)
     }
     fn run_case(&mut self, k: u64, rng: &mut Rng, col: &mut Collector) {
         if k % 400 == 7 {
